@@ -524,6 +524,8 @@ func checkCarriedMemory(p *Program, r *Report, k *ssa.Function, key string, l *L
 		base   ssa.Value
 		stores []*ssa.Store
 		loads  []ssa.Instruction
+		// calls inside the loop that hand the vector to a callee which writes its elements (effect summary), or copy(vec, …)
+		callStores []ssa.CallInstruction
 	}
 	mems := map[ssa.Value]*memInfo{}
 	get := func(b ssa.Value) *memInfo {
@@ -588,11 +590,23 @@ func checkCarriedMemory(p *Program, r *Report, k *ssa.Function, key string, l *L
 					}
 				}
 			case ssa.CallInstruction:
-				for _, a := range x.Common().Args {
+				callee := x.Common().StaticCallee()
+				bi, _ := x.Common().Value.(*ssa.Builtin)
+				for ai, a := range x.Common().Args {
 					if isVec(a.Type()) {
 						base := baseOf(a)
 						if definedOutside(base) {
 							get(base).loads = append(get(base).loads, x)
+							writes := bi != nil && bi.Name() == "copy" && ai == 0
+							if callee != nil && callee.Blocks != nil && InModule(callee) && ai < len(callee.Params) && nil2eff(p).Mutates(callee, ai) != nil {
+								writes = true
+							}
+							if mc, ok := x.Common().Value.(*ssa.MakeClosure); ok {
+								_ = mc // closures called in place see the vector as a free variable: handled below
+							}
+							if writes {
+								get(base).callStores = append(get(base).callStores, x)
+							}
 						}
 					}
 				}
@@ -606,7 +620,7 @@ func checkCarriedMemory(p *Program, r *Report, k *ssa.Function, key string, l *L
 	sort.Slice(bases, func(i, j int) bool { return bases[i].Pos() < bases[j].Pos() })
 	for _, b := range bases {
 		mi := mems[b]
-		if len(mi.stores) == 0 || len(mi.loads) == 0 {
+		if len(mi.stores)+len(mi.callStores) == 0 || len(mi.loads) == 0 {
 			continue // read-only tables (UH ordinates) or write-only
 		}
 		name := b.Name()
@@ -639,7 +653,7 @@ func checkCarriedMemory(p *Program, r *Report, k *ssa.Function, key string, l *L
 		}
 		ckey := fmt.Sprintf("%s:mem:%s", key, name)
 		// scratch idiom: every in-loop use is dominated (within the iteration) by a constant-index store covering the vector
-		if scratchVector(b, mi.stores, mi.loads, l) {
+		if scratchVector(b, mi.stores, mi.callStores, mi.loads, l, baseOf) {
 			r.OK("R06.1", fmt.Sprintf("%s: vector `%s` is scratch (rewritten at the top of every iteration before use)", key, name))
 			continue
 		}
@@ -691,9 +705,46 @@ func valueReturned(fn *ssa.Function, v ssa.Value) bool {
 	return false
 }
 
-// scratchVector: constant-length vector, all in-loop stores at constant indices, and for each index some store
-// dominates every in-loop load/use.
-func scratchVector(b ssa.Value, stores []*ssa.Store, loads []ssa.Instruction, l *Loop) bool {
+// constElemWrites: helper h does nothing with its vector parameter k but store, unconditionally, into constant
+// elements of it (`idx[0] = i`): the elements written, or ok=false.
+func constElemWrites(h *ssa.Function, k int) (idxs []int64, ok bool) {
+	if h == nil || h.Blocks == nil || k >= len(h.Params) {
+		return nil, false
+	}
+	rets := returnsOf(h)
+	for _, ref := range refs(h.Params[k]) {
+		switch x := ref.(type) {
+		case *ssa.DebugRef:
+		case *ssa.IndexAddr:
+			c, isConst := constInt(x.Index)
+			if !isConst || x.X != ssa.Value(h.Params[k]) {
+				return nil, false
+			}
+			for _, u := range refs(x) {
+				st, isStore := u.(*ssa.Store)
+				if !isStore || st.Addr != ssa.Value(x) {
+					if _, dbg := u.(*ssa.DebugRef); dbg {
+						continue
+					}
+					return nil, false
+				}
+				for _, ret := range rets {
+					if !instrDominates(st, ret) {
+						return nil, false
+					}
+				}
+				idxs = append(idxs, c)
+			}
+		default:
+			return nil, false
+		}
+	}
+	return idxs, len(idxs) > 0
+}
+
+// scratchVector: constant-length vector, all in-loop stores at constant indices (directly, or by a helper that does
+// nothing else with it), and for each index some store dominates every in-loop load/use.
+func scratchVector(b ssa.Value, stores []*ssa.Store, callStores []ssa.CallInstruction, loads []ssa.Instruction, l *Loop, baseOf func(ssa.Value) ssa.Value) bool {
 	a, ok := b.(*ssa.Alloc)
 	if !ok {
 		return false
@@ -703,7 +754,7 @@ func scratchVector(b ssa.Value, stores []*ssa.Store, loads []ssa.Instruction, l 
 		return false
 	}
 	n := arr.Len()
-	byIdx := map[int64][]*ssa.Store{}
+	byIdx := map[int64][]ssa.Instruction{}
 	for _, st := range stores {
 		ia := st.Addr.(*ssa.IndexAddr)
 		c, ok := constInt(ia.Index)
@@ -712,6 +763,33 @@ func scratchVector(b ssa.Value, stores []*ssa.Store, loads []ssa.Instruction, l 
 		}
 		byIdx[c] = append(byIdx[c], st)
 	}
+	writer := map[ssa.Instruction]bool{}
+	for _, c := range callStores {
+		h := c.Common().StaticCallee()
+		found := false
+		for ai, arg := range c.Common().Args {
+			if baseOf(arg) != b {
+				continue
+			}
+			if _, isSlice := arg.(*ssa.Slice); isSlice {
+				if sl := arg.(*ssa.Slice); sl.Low != nil {
+					return false
+				}
+			}
+			idxs, ok := constElemWrites(h, ai)
+			if !ok {
+				return false
+			}
+			found = true
+			for _, ix := range idxs {
+				byIdx[ix] = append(byIdx[ix], c.(ssa.Instruction))
+			}
+		}
+		if !found {
+			return false
+		}
+		writer[c.(ssa.Instruction)] = true
+	}
 	for i := int64(0); i < n; i++ {
 		sts := byIdx[i]
 		if len(sts) == 0 {
@@ -719,6 +797,9 @@ func scratchVector(b ssa.Value, stores []*ssa.Store, loads []ssa.Instruction, l 
 			continue
 		}
 		for _, ld := range loads {
+			if writer[ld] {
+				continue // the writing call itself does not read the elements (constElemWrites)
+			}
 			dom := false
 			for _, st := range sts {
 				if instrDominates(st, ld) {
@@ -1275,7 +1356,6 @@ func checkDelegatedStates(p *Program, r *Report, models []*Model) {
 	r.Analysed["R06.5 delegated state arguments"] = n
 }
 
-
 // checkRunLengthIndependence (R06.6): inside a timestep nothing depends on how long the run is. A value derived from
 // the length of an input or output series may bound the time loop itself, and may size buffers, but it must not
 // reach — as data or as a branch/loop condition — anything computed inside the time loop that influences outputs
@@ -1412,7 +1492,6 @@ func checkRunLengthIndependence(p *Program, r *Report, models []*Model, rule str
 	r.Floor(rule, "kernels with one time loop", n, 8)
 }
 
-
 // countingLoop: `for i := lo; i < hi; i++` → (i, lo, hi).
 func countingLoop(l *Loop) (*ssa.Phi, ssa.Value, ssa.Value, bool) {
 	h := l.Header
@@ -1504,15 +1583,46 @@ func checkBufferRefill(p *Program, r *Report, models []*Model) {
 			}
 			return id, true
 		}
-		loops := findLoops(k)
-		for _, buf := range k.Params {
-			sl, ok := buf.Type().Underlying().(*types.Slice)
+		// the kernel's own slice-typed state buffers, and the same buffers inside helpers they are handed to
+		type bufIn struct {
+			fn   *ssa.Function
+			prm  *ssa.Parameter
+			name string
+		}
+		var bufs []bufIn
+		isFloatSlice := func(prm *ssa.Parameter) bool {
+			sl, ok := prm.Type().Underlying().(*types.Slice)
 			if !ok {
-				continue
+				return false
 			}
-			if b, ok := sl.Elem().Underlying().(*types.Basic); !ok || b.Info()&types.IsFloat == 0 {
-				continue
+			b, ok := sl.Elem().Underlying().(*types.Basic)
+			return ok && b.Info()&types.IsFloat != 0
+		}
+		for _, prm := range k.Params {
+			if isFloatSlice(prm) {
+				bufs = append(bufs, bufIn{k, prm, prm.Name()})
 			}
+		}
+		seenBuf := map[*ssa.Parameter]bool{}
+		for i := 0; i < len(bufs) && i < 32; i++ {
+			b := bufs[i]
+			for _, c := range callsIn(b.fn) {
+				h := c.Common().StaticCallee()
+				if h == nil || h.Blocks == nil || !InModule(h) || h == b.fn {
+					continue
+				}
+				for ai, a := range c.Common().Args {
+					if ai < len(h.Params) && origin1(a) == ssa.Value(b.prm) && isFloatSlice(h.Params[ai]) && !seenBuf[h.Params[ai]] {
+						seenBuf[h.Params[ai]] = true
+						bufs = append(bufs, bufIn{h, h.Params[ai], b.name + " (as `" + h.Params[ai].Name() + "` in " + h.Name() + ")"})
+					}
+				}
+			}
+		}
+		for _, bi := range bufs {
+			buf := bi.prm
+			k := bi.fn
+			loops := findLoops(k)
 			type wr struct {
 				l      *Loop
 				lo, hi linForm
@@ -1576,7 +1686,7 @@ func checkBufferRefill(p *Program, r *Report, models []*Model) {
 			sort.Slice(ws, func(i, j int) bool { return ws[i].l.Header.Index < ws[j].l.Header.Index })
 			for i, w := range ws {
 				n++
-				okey := fmt.Sprintf("%s:%s:refill#%d", key, buf.Name(), i+1)
+				okey := fmt.Sprintf("%s:%s:refill#%d", key, bi.name, i+1)
 				if !w.lo.ok || !w.hi.ok {
 					r.Undecided("R06.7", okey, p.Pos(w.pos), "the index range written by this loop is not a linear form")
 					continue
@@ -1592,19 +1702,19 @@ func checkBufferRefill(p *Program, r *Report, models []*Model) {
 				if prev < 0 {
 					zero := linForm{coef: map[int]int64{}, ok: true}
 					if w.lo.eq(zero) {
-						r.OK("R06.7", fmt.Sprintf("%s: first rewrite of `%s` in its branch starts at index 0", key, buf.Name()))
+						r.OK("R06.7", fmt.Sprintf("%s: first rewrite of `%s` in its branch starts at index 0", key, bi.name))
 					} else {
-						r.Fail("R06.7", okey, p.Pos(w.pos), fmt.Sprintf("the first loop that rewrites the state buffer `%s` in this branch starts at index %s, not 0: the front of the buffer keeps stale values", buf.Name(), w.lo))
+						r.Fail("R06.7", okey, p.Pos(w.pos), fmt.Sprintf("the first loop that rewrites the state buffer `%s` in this branch starts at index %s, not 0: the front of the buffer keeps stale values", bi.name, w.lo))
 					}
 					continue
 				}
 				zero := linForm{coef: map[int]int64{}, ok: true}
 				if w.lo.eq(zero) {
-					r.OK("R06.7", fmt.Sprintf("%s: rewrite %d of `%s` is a new pass from index 0", key, i+1, buf.Name()))
+					r.OK("R06.7", fmt.Sprintf("%s: rewrite %d of `%s` is a new pass from index 0", key, i+1, bi.name))
 				} else if ws[prev].hi.eq(w.lo) {
-					r.OK("R06.7", fmt.Sprintf("%s: rewrite %d of `%s` continues where the previous loop ended", key, i+1, buf.Name()))
+					r.OK("R06.7", fmt.Sprintf("%s: rewrite %d of `%s` continues where the previous loop ended", key, i+1, bi.name))
 				} else {
-					r.Fail("R06.7", okey, p.Pos(w.pos), fmt.Sprintf("the state buffer `%s` is refilled with a gap or an overlap: the previous loop wrote up to index %s, this one starts at %s (#k are the kernel's own quantities: lag, series length); only for particular lengths do the two ranges meet, otherwise values land in the wrong slots or past the end", buf.Name(), ws[prev].hi, w.lo))
+					r.Fail("R06.7", okey, p.Pos(w.pos), fmt.Sprintf("the state buffer `%s` is refilled with a gap or an overlap: the previous loop wrote up to index %s, this one starts at %s (#k are the kernel's own quantities: lag, series length); only for particular lengths do the two ranges meet, otherwise values land in the wrong slots or past the end", bi.name, ws[prev].hi, w.lo))
 				}
 			}
 		}
